@@ -43,11 +43,15 @@ claimed = {
    text="Effect contract 'deterministic' over the whole apply-path closure (recomputed from the SSA call graph on every run: FSM.applyRobustMessage, Unmarshal, NewIRCServer, every registered command handler, closures and function variables): no function in it calls a clock, random, environment or runtime source, starts a goroutine or touches a channel; every range over a map in the closure (25 today, enumerated from the SSA, so a new loop is checked without annotation) is shown order-independent by one of: collect-then-sort (every use of the collected slice is dominated by the sort), commuting body (only deletes, inserts of fixed values, inserts keyed by the loop key, writes to objects owned by the iteration's own value or allocated in the iteration), or first-match with at most one matching key (key equality, or the uniqueness lemma over the proved nickname-ownership invariant, discharged by SMT). Reply and message ids are proved to derive from the entry (contract of send, msgid postcondition of ProcessMessage).",
    note="The lifting from 'every function is deterministic and order-independent' to 'equal logs give equal outputs' is a stated meta-argument, not machine-checked. Assumes dependencies outside the nondeterminism list are deterministic, the command table is identical on all nodes, keyed inserts use an injective key function on the keys present. Decided by a structural (dataflow) check on the SSA plus one SMT lemma; no solver is involved in the effect/order classification.",
    design="§5 C01"),
+ "C15": dict(
+   text="Injection gates of the HTTP API: at the point where handlePostMessage and handleDeleteSession hand a client-supplied string to raft (assertions anchored at the applyMessageWait calls), the string is proved to contain no LF, CR or NUL for every request body (contract of strings.IndexAny: the prefix before the first hit contains none of the characters); every message a command handler appends to a reply is proved to be at most 510 bytes (invariant replyOK over the assumed contract of irc.Message.Bytes) and to be produced by Message.Bytes from a structured message (contract of send).",
+   note="Not proved: that no handler copies a control character from one parameter into a line through a path other than the two gates (irc.ParseMessage strips CR/LF at the ends only; interior CR/NUL are stopped at the gates), that every emitted line has a non-empty prefix and command. Assumes the contracts of strings.IndexAny/IndexByte and irc.Message.Bytes (vendored sorcix/irc truncates at 510).",
+   design="§5 C15"),
 }
 na = {
  "C05": "whole-system property over process kills, restarts and leader changes of several OS processes running hashicorp/raft; no function contract within reach expresses it (DESIGN §5 C05)",
 }
-notbuilt = ["C02","C03","C04","C07","C08","C09","C15","C18","C20"]
+notbuilt = ["C02","C03","C04","C07","C08","C09","C18","C20"]
 checks = []
 for pid, c in sorted(claimed.items()):
     checks.append({
